@@ -70,3 +70,15 @@ PROPS['C04'] = dict(
     level_note='Trusted: GMP, ref.h. n and order above 5 are not instantiated.',
     assumptions=[EXACT, SAN, 'double/long double sub-cases use dyadic inputs small enough that the operator result is exactly representable'],
 )
+
+PROPS['C01'] = dict(
+    units=[dict(target=T('h_gen', parts=4), quick=dict(scale=1.0), thorough=dict(scale=4.0, shards=16))],
+    rule=('random knot vectors by shape (random with 35% repeated knots, simple, clamped, multiplicity > p+1 at an end, multiplicity p+2.. inside, several interior repeats 2..p+2, shortest m=p+1/p+2, far from origin with minimal gaps) '
+          'x order p=0..6 x {Q, float, double, long double} x three routes (knots only, knots + separately built equal grid, free function). Oracle: Cox-de Boor recursion on the reference model; '
+          'Q: exact equality on every grid interval, zero outside [t_i,t_{i+p+1}], partition of unity inside [t_p,t_{m-p-1}], C^{p-mu} at every knot and a jump in derivative p-mu+1 for some function at interior knots; '
+          'floats: count, routes equal, window covers the exact support, coefficient error <= 2^20 eps * sum|c_k|h^k. Non-trivial: >= 1 function and (repeated knot or non-uniform spacing or m <= p+3 or |t_0| > 4).'),
+    technique='rapidcheck generation of knot vectors against an independent exact Cox-de Boor recursion on piecewise polynomials',
+    level_text='Exact generated-input search (Q) plus bounded-error comparison in the three floating types; all multiplicity patterns are constructed by the generator and counted. Sampling, not proof; orders above 6 not instantiated.',
+    level_note='Trusted: GMP, ref.h, the recursion as transcribed from the definition (itself cross-checked by partition of unity and knot continuity).',
+    assumptions=[EXACT, SAN, 'float runs use dyadic knots with |t| <= 8 and gaps >= 1/8 (the well-scaled domain of C16)'],
+)
